@@ -16,6 +16,7 @@ import (
 	"bytes"
 	"encoding/json"
 	"fmt"
+	"math/rand"
 	"os"
 	"os/exec"
 	"path/filepath"
@@ -41,18 +42,21 @@ func init() {
 // same binary, C19_CHILD=1) speaking JSON lines; a dead child is reported as
 // a crash of that edit and the child is restarted.
 type c19ApplyReq struct {
-	Src  string  `json:"src"`
-	Path string  `json:"path"`
-	Edit c19Edit `json:"edit"`
+	Src   string    `json:"src"`
+	Path  string    `json:"path"`
+	Edit  c19Edit   `json:"edit"`
+	Files []c19File `json:"files,omitempty"` // several files in one Refactor invocation
 }
 
 type c19ApplyResp struct {
-	Out     string `json:"out"`
-	Enc     string `json:"enc"`
-	Count   int    `json:"count"`
-	Err     string `json:"err"`
-	NoSplit bool   `json:"nosplit"`
-	Incons  string `json:"inconsistent"` // compiled AST tables no longer match its lists after a rename
+	Out     string   `json:"out"`
+	Enc     string   `json:"enc"`
+	Count   int      `json:"count"`
+	Err     string   `json:"err"`
+	NoSplit bool     `json:"nosplit"`
+	Incons  string   `json:"inconsistent"` // compiled AST tables no longer match its lists after a rename
+	Outs    []string `json:"outs,omitempty"`
+	Encs    []string `json:"encs,omitempty"`
 }
 
 func c19ChildMain() {
@@ -74,6 +78,21 @@ func c19ChildMain() {
 			return
 		}
 		var resp c19ApplyResp
+		if len(req.Files) > 0 {
+			outs, encs, ferr := c19ApplyFiles(req.Files, req.Edit)
+			resp.Outs, resp.Encs = outs, encs
+			if ferr != nil {
+				resp.Err = ferr.Error()
+			}
+			b, _ := json.Marshal(resp)
+			out.Write(b)
+			out.WriteByte('\n')
+			out.Flush()
+			if err != nil {
+				return
+			}
+			continue
+		}
 		newSrc, edited, count, incons, aerr := c19Apply(req.Src, req.Path, req.Edit)
 		resp.Out, resp.Count, resp.Incons = newSrc, count, incons
 		if aerr != nil {
@@ -159,12 +178,16 @@ func (w *c19Worker) stop() {
 }
 
 func (w *c19Worker) apply(src, path string, e c19Edit) c19ApplyResp {
+	return w.request(c19ApplyReq{Src: src, Path: path, Edit: e})
+}
+
+func (w *c19Worker) request(req c19ApplyReq) c19ApplyResp {
 	if w.cmd == nil {
 		if err := w.start(); err != nil {
 			return c19ApplyResp{Err: "harness: cannot start child: " + err.Error()}
 		}
 	}
-	b, _ := json.Marshal(c19ApplyReq{Src: src, Path: path, Edit: e})
+	b, _ := json.Marshal(req)
 	w.in.Write(b)
 	w.in.WriteByte('\n')
 	w.in.Flush()
@@ -703,8 +726,98 @@ func c19Enumerate(ast *syntax.Ast, fresh func() string) []c19Planned {
 			c19Planned{c19Edit{Op: "removeUnused", Calls: true}, true, "removeUnused:calls"},
 			c19Planned{c19Edit{Op: "removeUnused", Top: top}, true, "removeUnused:outputs"},
 			c19Planned{c19Edit{Op: "removeUnused", Calls: true, Top: top}, true, "removeUnused:calls+outputs"})
+		plan = append(plan, c19TopSubsets(ast)...)
 	}
 	return plan
+}
+
+// c19EnumRng drives the sampled part of the enumeration (nil: none).
+var c19EnumRng *rand.Rand
+var c19EnumSubsets = 5
+
+// c19TopSubsets: remove-unused with sampled subsets of the pipelines as
+// -top-calls (every subset when there are few pipelines): single pipelines
+// other than the top-level one, pairs/triples, and in particular NESTED top
+// calls (one top call calling another), whatever their declaration order.
+func c19TopSubsets(ast *syntax.Ast) []c19Planned {
+	if c19EnumRng == nil || len(ast.Pipelines) < 2 {
+		return nil
+	}
+	r := c19EnumRng
+	names := make([]string, len(ast.Pipelines))
+	pos := map[string]int{}
+	for i, p := range ast.Pipelines {
+		names[i] = p.Id
+		pos[p.Id] = i
+	}
+	var calls func(a, b string, depth int) bool
+	calls = func(a, b string, depth int) bool {
+		p, ok := ast.Callables.Table[a].(*syntax.Pipeline)
+		if !ok || p == nil || depth > 8 {
+			return false
+		}
+		for _, c := range p.Calls {
+			if c.DecId == b || calls(c.DecId, b, depth+1) {
+				return true
+			}
+		}
+		return false
+	}
+	var subsets [][]string
+	n := len(names)
+	if n <= 3 {
+		for mask := 1; mask < 1<<n; mask++ {
+			var sub []string
+			for i := 0; i < n; i++ {
+				if mask&(1<<i) != 0 {
+					sub = append(sub, names[i])
+				}
+			}
+			subsets = append(subsets, sub)
+		}
+	} else {
+		var nested [][]string
+		for _, a := range names {
+			for _, b := range names {
+				if a != b && calls(a, b, 0) {
+					nested = append(nested, []string{b, a})
+				}
+			}
+		}
+		r.Shuffle(len(nested), func(i, j int) { nested[i], nested[j] = nested[j], nested[i] })
+		if len(nested) > (c19EnumSubsets+1)/2 {
+			nested = nested[:(c19EnumSubsets+1)/2]
+		}
+		subsets = append(subsets, nested...)
+		for len(subsets) < c19EnumSubsets {
+			k := 1 + r.Intn(3)
+			perm := r.Perm(n)[:k]
+			sub := make([]string, k)
+			for i, j := range perm {
+				sub[i] = names[j]
+			}
+			subsets = append(subsets, sub)
+		}
+	}
+	var out []c19Planned
+	for _, sub := range subsets {
+		sort.Strings(sub)
+		class := fmt.Sprintf("removeUnused:top-subset(size %d)", len(sub))
+		nestedCls := ""
+		for _, a := range sub {
+			for _, b := range sub {
+				if a != b && calls(a, b, 0) {
+					if pos[b] < pos[a] {
+						nestedCls = ":nested(callee-declared-first)"
+					} else if nestedCls == "" {
+						nestedCls = ":nested(caller-declared-first)"
+					}
+				}
+			}
+		}
+		out = append(out, c19Planned{c19Edit{Op: "removeUnused", Calls: r.Intn(2) == 0, Top: sub}, true, class + nestedCls})
+	}
+	return out
 }
 
 // ---- one edit on one program ----
@@ -809,7 +922,49 @@ func c19CheckProp(cs *c19Case, base *c19Compiled, baseGraph *c19Node, pl c19Plan
 		case "removeOutput":
 			diff = c19CompareRemoved(baseGraph, ag, &c19Removal{outOf: map[string]map[string]bool{e.Callable: {e.Param: true}}, anyPipeIn: true})
 		case "removeUnused":
-			diff = c19CompareRemoved(baseGraph, ag, &c19Removal{nodeLoss: e.Calls, anyPipeIn: true, anyPipeOut: len(e.Top) > 0, top: base.Ast.Call.DecId})
+			tops := map[string]bool{}
+			for _, t := range e.Top {
+				tops[t] = true
+			}
+			diff = c19CompareRemoved(baseGraph, ag, &c19Removal{nodeLoss: e.Calls, anyPipeIn: true, anyPipeOut: len(e.Top) > 0, tops: tops})
+			// every -top-calls pipeline is a top-level call in its own right: it keeps its
+			// outputs and its own resolved call graph only loses unused elements
+			for _, t := range e.Top {
+				if diff != "" {
+					break
+				}
+				bp, _ := base.Ast.Callables.Table[t].(*syntax.Pipeline)
+				ap, _ := after.Ast.Callables.Table[t].(*syntax.Pipeline)
+				if bp == nil || ap == nil {
+					continue
+				}
+				var bo, ao []string
+				for _, o := range bp.OutParams.List {
+					bo = append(bo, o.Id)
+				}
+				for _, o := range ap.OutParams.List {
+					ao = append(ao, o.Id)
+				}
+				if strings.Join(bo, ",") != strings.Join(ao, ",") {
+					diff = fmt.Sprintf("top call %s lost outputs: %v -> %v", t, bo, ao)
+					break
+				}
+				if t == base.Ast.Call.DecId {
+					continue
+				}
+				bg, err1 := c19GraphOfPipeline(base.Ast, t)
+				tg, err2 := c19GraphOfPipeline(after.Ast, t)
+				if err1 != nil {
+					continue // the abstract call of this pipeline does not resolve even before the edit
+				}
+				if err2 != nil {
+					diff = fmt.Sprintf("top call %s: call graph no longer resolves: %v", t, err2)
+					break
+				}
+				if d := c19CompareRemoved(bg, tg, &c19Removal{nodeLoss: e.Calls, anyPipeIn: true, anyPipeOut: true, tops: tops}); d != "" {
+					diff = "as top call " + t + ": " + d
+				}
+			}
 		}
 		if diff != "" {
 			return fail("property", "graph", "resolved call graph changed: "+diff+"\n--- edited ---\n"+newSrc), editedEnc
@@ -982,6 +1137,14 @@ func c19Shrink(c *Ctx, cs *c19Case, pl c19Planned, key string) *c19Case {
 					ok = true
 				}
 			}
+			if pl.Edit.Op == "removeUnused" {
+				ok = true
+				for _, t := range pl.Edit.Top {
+					if _, isPipe := base.Ast.Callables.Table[t].(*syntax.Pipeline); !isPipe {
+						ok = false
+					}
+				}
+			}
 			if !ok {
 				continue
 			}
@@ -1044,7 +1207,7 @@ func runC19(c *Ctx) {
 	savedLog := util.ENABLE_LOGGING
 	util.ENABLE_LOGGING = false
 	defer func() { util.ENABLE_LOGGING = savedLog }()
-	r.Rule = "programs: corpus/C19/*.mro + the repository's single-file .mro testdata (syntax/testdata, refactoring/testdata, test/*) + PRNG-generated compiling programs (stages, nested pipelines, aliased calls incl. aliases that are other callables' names, map calls, disabled modifiers bound to inputs/outputs, struct outputs with projections, whole-call struct bindings, `* = self` and `* = self.pt` wildcards, retains, shared in/out names). For EVERY callable: rename to a fresh name and to every colliding call alias; for EVERY input/output: rename (fresh, and to a name of the opposite direction), remove; plus removeUnused (calls / outputs / both). Each edit: real Refactor->Apply->Format->recompile->MakeCallGraph, oracle = graph equal modulo the renaming or minus removed elements, X->Y->X byte-identical + EquivalentCall; the Lean model's edited AST compared with the real one. Multi-step edits: PRNG-chosen ordered pairs and triples of operations in ONE Refactor call (as `mro edit` with several options applies them: callable renames, input renames, output renames, input removals, output removals, remove-unused loop), later steps addressing the names produced by earlier ones, biased towards a callable rename followed by an operation on the renamed callable; oracle = the one-shot result equals the composition of the single steps done on freshly compiled programs (text, else compile + identical call graph) and equals the model's composition; after every rename the compiled AST's lookup tables must still match its lists. Generator name pools contain prefix-related names for parameters (pt/pt_alt, xt/xt_alt, a/a_2, f/f_idx), callables (X/X_B/X_P) and call ids (callee_N, callid_X); struct-typed outputs are projected in call bindings, disabled modifiers, returns and retains. non-trivial = the edit changed the program text; distinct = distinct (program, edit)."
+	r.Rule = "programs: corpus/C19/*.mro + the repository's single-file .mro testdata (syntax/testdata, refactoring/testdata, test/*) + PRNG-generated compiling programs (stages, nested pipelines, aliased calls incl. aliases that are other callables' names, map calls, disabled modifiers bound to inputs/outputs, struct outputs with projections, whole-call struct bindings, `* = self` and `* = self.pt` wildcards, retains, shared in/out names). For EVERY callable: rename to a fresh name and to every colliding call alias; for EVERY input/output: rename (fresh, and to a name of the opposite direction), remove; plus removeUnused (calls / outputs / both). Each edit: real Refactor->Apply->Format->recompile->MakeCallGraph, oracle = graph equal modulo the renaming or minus removed elements, X->Y->X byte-identical + EquivalentCall; the Lean model's edited AST compared with the real one. Multi-step edits: PRNG-chosen ordered pairs and triples of operations in ONE Refactor call (as `mro edit` with several options applies them: callable renames, input renames, output renames, input removals, output removals, remove-unused loop), later steps addressing the names produced by earlier ones, biased towards a callable rename followed by an operation on the renamed callable; oracle = the one-shot result equals the composition of the single steps done on freshly compiled programs (text, else compile + identical call graph) and equals the model's composition; after every rename the compiled AST's lookup tables must still match its lists. Generator name pools contain prefix-related names for parameters (pt/pt_alt, xt/xt_alt, a/a_2, f/f_idx), callables (X/X_B/X_P) and call ids (callee_N, callid_X); struct-typed outputs are projected in call bindings, disabled modifiers, returns and retains. remove-unused is also run with sampled subsets of the pipelines as -top-calls (all subsets for <= 3 pipelines; nested top calls in both declaration orders; every top call keeps its outputs and its own abstract-call graph only loses unused elements). One Refactor invocation over 2-3 files: unrelated programs with clashing callable/parameter names, unrelated with disjoint names, and a program split into lib.mro + main.mro (@include), in both file orders; oracle = every file comes out exactly as when the edit is run on its own program alone (untouched programs byte-identical), lib+main = the edited unsplit program. non-trivial = the edit changed the program text; distinct = distinct (program, edit)."
 	if c.Drv != nil {
 		if rep := c.Drv.Ask("C19.ping"); rep != "pong" {
 			r.note("Lean driver has no C19 model (reply %q): model correspondence skipped", rep)
@@ -1062,7 +1225,7 @@ func runC19(c *Ctx) {
 	if os.Getenv("C19_ONLY_CORPUS") == "" {
 		cases = append(cases, c19RepoPrograms(c.RepoDir)...)
 	}
-	nGen := 120
+	nGen := 100
 	if c.Thorough {
 		nGen = 1000
 	}
@@ -1088,6 +1251,10 @@ func runC19(c *Ctx) {
 		made++
 		r.hist("generator:" + c19FeatureKey(p.Features))
 		cases = append(cases, &c19Case{Name: fmt.Sprintf("gen-%d-%d", c.Seed, made), Src: p.Src, Path: genPath})
+	}
+	c19EnumRng = c.Rng
+	if c.Thorough {
+		c19EnumSubsets = 10
 	}
 	freshN := 0
 	reported := map[string]int{}
@@ -1324,5 +1491,18 @@ func runC19(c *Ctx) {
 			}
 		}
 	}
+	// ---- one Refactor invocation over several files ----
+	var gens []*c19Case
+	for _, cs := range cases {
+		if strings.HasPrefix(cs.Name, "gen-") {
+			if _, err := c19Compile(cs.Src, cs.Path); err == nil {
+				gens = append(gens, cs)
+			}
+		}
+	}
+	if !c.Thorough && len(gens) > 40 {
+		gens = gens[:40]
+	}
+	c19RunFiles(c, gens, func() string { freshN++; return fmt.Sprintf("ZZ_NEW%d", freshN) })
 	r.note("programs: %d (generated %d, rejected by the compiler %d); time spent shrinking failing inputs: %.1fs; child restarts after a crash: %d", len(cases), made, rejected, shrinkTime.Seconds(), c19W.deaths)
 }
